@@ -83,7 +83,7 @@ theorem C06_atomic (c : Core) (cmd : Cmd) (herr : (stepCore c cmd).2.1.isError =
   | remove name =>
     simp only [stepCore] at herr ⊢
     exact hws _ _ (fun v he => by cases he) herr
-  | restart => simp [stepCore, Res.isError] at herr
+  | restart good => simp [stepCore, Res.isError] at herr
 
 /-- … in terms of the full state: the set of probed targets is the same multiset as before. -/
 theorem C06_nothing_left_running (s : State) (cmd : Cmd) (herr : (step s cmd).2.isError = true) :
